@@ -172,13 +172,17 @@ class Controller (object):
   current = None
 
   def __init__ (self, codes, schedule=None, policy="nonpreemptive", rng=None,
-                clock=None, max_steps=200000, pct_points=None):
+                clock=None, max_steps=200000, pct_points=None, instr_codes=()):
     """
     codes: code objects whose lines are yield points
     schedule: list of choices to replay (prefix); afterwards `policy` decides
     policy: 'nonpreemptive' | 'random' | 'pct'
     """
     self.codes = list(codes)
+    # code objects in which every *bytecode instruction* is a yield point (a
+    # thread can lose the processor between the load of an attribute and the
+    # call made on it, inside one source line)
+    self.instr_codes = list(instr_codes)
     self.schedule = list(schedule or [])
     self.policy = policy
     self.rng = rng
@@ -219,15 +223,20 @@ class Controller (object):
     if not _tool_on[0]:
       mon.use_tool_id(TOOL, "pvm-ilv"); _tool_on[0] = True
     mon.register_callback(TOOL, mon.events.LINE, self._on_line)
+    mon.register_callback(TOOL, mon.events.INSTRUCTION, self._on_instr)
     for c in self.codes:
       mon.set_local_events(TOOL, c, mon.events.LINE)
+    for c in self.instr_codes:
+      mon.set_local_events(TOOL, c, mon.events.LINE | mon.events.INSTRUCTION)
 
   def remove_monitoring (self):
     mon = sys.monitoring
-    for c in self.codes:
+    for c in self.codes + self.instr_codes:
       try: mon.set_local_events(TOOL, c, 0)
       except Exception: pass
     try: mon.register_callback(TOOL, mon.events.LINE, None)
+    except Exception: pass
+    try: mon.register_callback(TOOL, mon.events.INSTRUCTION, None)
     except Exception: pass
 
   def _on_line (self, code, lineno):
@@ -235,6 +244,12 @@ class Controller (object):
     st = self.by_ident.get(_threading.get_ident())
     if st is None: return
     self.yield_point("%s:%d" % (code.co_name, lineno))
+
+  def _on_instr (self, code, offset):
+    if getattr(self._tls, "busy", False): return
+    st = self.by_ident.get(_threading.get_ident())
+    if st is None: return
+    self.yield_point("%s@%d" % (code.co_name, offset))
 
   # ---------------------------------------------------------------- threads
   def start_thread (self, cthread):
@@ -463,6 +478,7 @@ def shutdown ():
   if _tool_on[0]:
     try:
       sys.monitoring.register_callback(TOOL, sys.monitoring.events.LINE, None)
+      sys.monitoring.register_callback(TOOL, sys.monitoring.events.INSTRUCTION, None)
       sys.monitoring.free_tool_id(TOOL)
     except Exception:
       pass
